@@ -741,8 +741,11 @@ class CSemantics:
         """Process a character literal"""
         # Get value from string:
         char_value, kind = utils.charval(value)
-        typ = self.get_type(kind)
-        return expressions.CharLiteral(char_value, typ, location)
+        # A character constant has type int, its value is that of
+        # a (signed) char converted to int:
+        if char_value > 127:
+            char_value -= 256
+        return expressions.CharLiteral(char_value, self.int_type, location)
 
     def on_ternop(self, lhs, op, mid, rhs, location):
         """Handle ternary operator 'a ? b : c'"""
